@@ -48,21 +48,42 @@ def run_sheet(text, settings, name="s.css", extra_files=None):
 _VAR = re.compile(r"^var\(\s*(--[^\s,)]+)\s*(?:,\s*(.*))?\)$", re.S)
 
 
+def _find_var(v):
+    """(start, end, name, fallback or None) of the first var() function in v (balanced parentheses), or None."""
+    m = re.search(r"var\(", v, re.I)
+    if not m:
+        return None
+    depth, i = 1, m.end()
+    while i < len(v) and depth:
+        depth += v[i] == "("
+        depth -= v[i] == ")"
+        i += 1
+    if depth:
+        return None
+    inner = v[m.end():i - 1]
+    name, _, fb = inner.partition(",")
+    return m.start(), i, name.strip(), (fb.strip() if _ else None)
+
+
 def resolve(value, defs, seen=()):
-    """CSS custom-property substitution for whole-value var() references.  None = invalid at computed-value time."""
+    """CSS custom-property substitution: every var() in the value is replaced by the property's (resolved) value or, failing
+    that, by its fallback.  None = invalid at computed-value time (a reference that cannot be substituted)."""
     if value is None:
         return None
     v = value.strip()
-    m = _VAR.match(v)
-    if not m:
-        return v
-    name, fb = m.group(1), m.group(2)
-    if name in defs and name not in seen:
-        r = resolve(defs[name], defs, seen + (name,))
-        if r is not None:
-            return r
-    if fb is not None:
-        return resolve(fb, defs, seen)
+    for _ in range(32):
+        f = _find_var(v)
+        if f is None:
+            return v
+        start, end, name, fb = f
+        rep = None
+        if name in defs and name not in seen:
+            rep = resolve(defs[name], defs, seen + (name,))
+        if rep is None and fb is not None:
+            rep = resolve(fb, defs, seen)
+        if rep is None:
+            return None
+        v = (v[:start] + rep + v[end:]).strip()
     return None
 
 
